@@ -22,6 +22,8 @@ class BadHint(Exception):
 class Spec:
     def __init__(self, lines, hints):
         self.classes = []      # mapping or None per class
+        self.over = []         # methods each class defines itself
+        self.hbase = []        # its handler base (single lineage)
         self.objmap = {}
         self.reactions = {}
         self.ops = []
@@ -36,6 +38,8 @@ class Spec:
                 bases = [int(b) for b in split_list(d['bases'])]
                 names = split_list(d['names'])
                 kw = [p.split(':') for p in split_list(d['kw'])]
+                self.over.append(set(split_list(d.get('over', '-'))))
+                self.hbase.append(next((b for b in bases if self.classes[b] is not None), None))
                 inh = next((self.classes[b] for b in bases if self.classes[b] is not None), None)
                 if not names and not kw:
                     self.classes.append(inh)
@@ -129,10 +133,20 @@ class Spec:
             meth = remaining.pop(o)
             self.call(o, meth, args)
 
+    def impl(self, o, meth):
+        """The class whose definition of `meth` an instance uses (the statement: *the method* the
+        handler maps to the event, i.e. its own class's, overrides included)."""
+        c = self.objmap[o]
+        while c is not None:
+            if meth in self.over[c]:
+                return str(c)
+            c = self.hbase[c]
+        return 'R'
+
     def call(self, o, meth, args):
         k = self.calls.get((o, meth), 0)
         self.calls[(o, meth)] = k + 1
-        self.out.append(f'cb {o} {meth} {args}')
+        self.out.append(f'cb {o} {meth}@{self.impl(o, meth)} {args}')
         self.pinned.insert(0, o)
         try:
             for t in self.reactions.get((o, meth, k), ()):
@@ -181,7 +195,11 @@ def compare(pid, exp, act, project=lambda x: x):
     elif want.startswith('cb ') and not got.startswith('cb '):
         kind = 'missing-callback'
     elif want.startswith('cb ') and got.startswith('cb '):
-        kind = 'wrong-callback' if want.split()[1:3] != got.split()[1:3] else 'wrong-arguments'
+        if want.split()[1] == got.split()[1] and want.split()[2].split('@')[0] == got.split()[2].split('@')[0] \
+                and want.split()[2] != got.split()[2]:
+            kind = 'wrong-method-implementation'
+        else:
+            kind = 'wrong-callback' if want.split()[1:3] != got.split()[1:3] else 'wrong-arguments'
     else:
         kind = 'wrong-' + want.split()[0]
     return [{'sig': f'{pid}:{kind}', 'what': f'observation #{k}: required `{want}`, '
